@@ -155,3 +155,23 @@ pub fn theta() -> impl Strategy<Value = Theta> {
         .prop_map(Theta::Raw),
     ]
 }
+
+/// Where the point cloud sits and in which element type the kernel is built:
+/// (single precision?, per-feature offsets (4 entries), spacing scale).
+/// f64: offsets from {0, 1e3, 1e6, 1e8}; f32: offsets from {0, 1000, 2048}. Scale 1 or 0.25.
+pub fn placement() -> impl Strategy<Value = (bool, Vec<f64>, f64)> {
+    fn offsets(values: &'static [f64]) -> BoxedStrategy<Vec<f64>> {
+        let pick = move || (0..values.len()).prop_map(move |i| values[i]);
+        prop_oneof![
+            3 => Just(vec![0.0; 4]),
+            4 => (1..values.len()).prop_map(move |i| vec![values[i]; 4]),
+            2 => proptest::collection::vec(pick(), 4),
+        ]
+        .boxed()
+    }
+    let scale = prop_oneof![3 => Just(1.0), 1 => Just(0.25)];
+    prop_oneof![
+        3 => (offsets(&[0.0, 1e3, 1e6, 1e8]), scale.clone()).prop_map(|(o, s)| (false, o, s)),
+        1 => (offsets(&[0.0, 1000.0, 2048.0]), scale).prop_map(|(o, s)| (true, o, s)),
+    ]
+}
